@@ -359,8 +359,11 @@ def cli_case(col, rng, tmpdir, watch):
         with open(tpath, 'w', encoding='utf-8') as f:
             f.write(target_text)
     if channel in ('spec-file', 'both-files'):
-        with open(spath, 'w', encoding='utf-8') as f:
-            f.write(spec_text)
+        # (a text file ends with a newline, as editors and `echo` write it: that newline is not part of the spec)
+        eol = rng.choice(['', '\n', '\n', '\r\n'])
+        col.count('spec_files_ending_in_a_newline', 1 if eol else 0)
+        with open(spath, 'w', encoding='utf-8', newline='') as f:
+            f.write(spec_text + eol)
     if channel == 'argv':
         argv = flags + [spec_text, target_text]
     elif channel == 'target-file':
